@@ -1,11 +1,21 @@
 /-
 C10 — Exponent, triplet, cumulants and simulation drifts describe one same process.      Property theorems only.
 Model: RpylibModel/Model/Triplet.lean.  Proved: the drift conversion between representations is path-independent and
-reversible (every measure, finite or infinite variation); the martingale algebra of the three pricing routes.
-NOT proved (compared numerically by harness/props/c10.py): exponent = Lévy–Khintchine integral of the density,
-cumulants = derivatives of the exponent, κ_X(1) as an integral of the density.
+reversible (every measure, finite or infinite variation); the martingale algebra of the three pricing routes; and, over ℝ / ℂ
+(Lemmas/C10*.lean, on top of C09's densities), for the jump-diffusion families HEM, Merton and Black–Scholes:
+  * the coded pure-jump exponent IS the Lévy–Khintchine integral ∫ (e^{z x} − 1) ν(dx) of the model's own density — HEM for
+    every complex z with −η₂ < Re z < η₁, Merton for every complex z (so both the moment-generating argument z = s and the
+    characteristic argument z = i u), hence `levy_exponent(u)` = i u a − σ²u²/2 + ∫ (e^{iux} − 1) ν(dx) in the declared (ZERO)
+    representation, κ(1) = ∫ (e^x − 1) ν(dx), and the direct / cf martingale statements about that integral;
+  * the coded cumulants 1, 2, 4, 6 are the derivatives at 0 of s ↦ a s + σ²s²/2 + ∫ (e^{s x} − 1) ν(dx) (every order has a
+    closed form: `hem_cgf_iteratedDeriv`, `merton_cgf_iteratedDeriv`); the first two are the mean / second moment of ν.
+NOT proved (compared numerically by harness/props/c10.py): the same statements for VG / CGMY (gamma / incomplete-gamma
+closed forms, no Mathlib counterpart), and the exponent in the non-declared representations as an integral (only the drift
+bookkeeping `exponent_rep_invariant` is proved).
 -/
 import RpylibModel.Model.Triplet
+import RpylibModel.Proofs.Lemmas.C10Cgf
+import RpylibModel.Proofs.Lemmas.C10Complex
 import Mathlib.Tactic.Linarith
 import Mathlib.Tactic.Ring
 import Mathlib.Tactic.FieldSimp
@@ -161,11 +171,375 @@ theorem ctmc_route_martingale (m : Meas) (r d sigma j11 : Rat) (t : Trip) :
   unfold expDrift omega psiMinusI
   linarith
 
-/-! ### non-vacuity -/
+/-! ### non-vacuity (representation walks) -/
 
 example : walk ⟨1/3, -1/7, true⟩ ⟨5, .zero⟩ [.center, .oneone, .tilde, .center] = ⟨5 + 1/3 - 1/7, .center⟩ := by
   decide +kernel
 
 example : (setRep ⟨1/3, -1/7, false⟩ ⟨5, .center⟩ .tilde).a = 5 + 1/7 := by decide +kernel
+
+
+/-! ## the coded exponents are Lévy–Khintchine integrals of the densities (ℝ / ℂ) -/
+
+open Real MeasureTheory Rpylib.Integrals
+
+theorem hemKappa_cast (lam p eta1 eta2 s : ℚ) :
+    ((hemKappa lam p eta1 eta2 s : ℚ) : ℝ) = hemKappaR lam p eta1 eta2 s := by
+  unfold hemKappa hemKappaR; push_cast; ring
+
+/-- **hem_kappa_is_LK_integral**: M's (= the code's, hem.py:216-219) rational function is the moment-generating
+    Lévy–Khintchine integral of the HEM density (hem.py:55-62) over ℝ (the density is 0 at 0), every −η₂ < s < η₁ -/
+theorem hem_kappa_is_LK_integral (lam p eta1 eta2 s : ℚ) (h1 : 0 < eta1) (h2 : 0 < eta2) (hs : -eta2 < s ∧ s < eta1) :
+    ((hemKappa lam p eta1 eta2 s : ℚ) : ℝ) = ∫ x : ℝ, (exp (s * x) - 1) * hemDensity lam p eta1 eta2 x := by
+  rw [hemKappa_cast, hem_LK_integral_real]
+  · exact_mod_cast h1
+  · exact_mod_cast h2
+  · constructor
+    · exact_mod_cast hs.1
+    · exact_mod_cast hs.2
+
+/-- … and the integrand is integrable (the equality above is not an equality of junk values) -/
+theorem hem_LK_integrable (lam p eta1 eta2 s : ℚ) (h1 : 0 < eta1) (h2 : 0 < eta2) (hs : -eta2 < s ∧ s < eta1) :
+    Integrable (fun x : ℝ => (exp (s * x) - 1) * hemDensity lam p eta1 eta2 x) := by
+  apply integrable_hemLK_real
+  · exact_mod_cast h1
+  · exact_mod_cast h2
+  · constructor
+    · exact_mod_cast hs.1
+    · exact_mod_cast hs.2
+
+/-- **complex argument** (real parameters): every z in the strip −η₂ < Re z < η₁ -/
+theorem hem_kappa_is_LK_integral_complex (lam p eta1 eta2 : ℝ) (z : ℂ) (h1 : 0 < eta1) (h2 : 0 < eta2)
+    (hz : -eta2 < z.re ∧ z.re < eta1) :
+    ∫ x : ℝ, (Complex.exp (z * x) - 1) * (hemDensity lam p eta1 eta2 x : ℂ)
+      = lam * (p * eta1 / (eta1 - z) + (1 - p) * eta2 / (eta2 + z) - 1) :=
+  hem_LK_integral_complex lam p eta1 eta2 z h1 h2 hz
+
+/-- `LevyModel.levy_exponent(w)` of the HEM model as coded (levymodel.py:402-410 with hem.py:216-219) -/
+noncomputable def hemLevyExponent (a sigma lam p eta1 eta2 : ℝ) (w : ℂ) : ℂ :=
+  Complex.I * w * a - (w * sigma) ^ 2 / 2 + hemKappaC lam p eta1 eta2 (Complex.I * w)
+
+/-- **hem_levy_exponent_is_LK**: the coded characteristic exponent is the Lévy–Khintchine formula of the declared triplet
+    (a, σ, ν, ZERO) — for every complex w with −η₂ < −Im w < η₁, in particular every real u and w = −i -/
+theorem hem_levy_exponent_is_LK (a sigma lam p eta1 eta2 : ℝ) (w : ℂ) (h1 : 0 < eta1) (h2 : 0 < eta2)
+    (hw : -eta2 < -w.im ∧ -w.im < eta1) :
+    hemLevyExponent a sigma lam p eta1 eta2 w
+      = Complex.I * w * a - sigma ^ 2 * w ^ 2 / 2
+        + ∫ x : ℝ, (Complex.exp (Complex.I * w * x) - 1) * (hemDensity lam p eta1 eta2 x : ℂ) := by
+  have hre : (Complex.I * w).re = -w.im := by simp
+  have h := hem_LK_integral_complex lam p eta1 eta2 (Complex.I * w) h1 h2 (by rw [hre]; exact hw)
+  unfold hemLevyExponent
+  rw [← h]
+  simp only [hemLKIntegrand]
+  ring
+
+theorem hem_levy_exponent_is_LK_real (a sigma lam p eta1 eta2 u : ℝ) (h1 : 0 < eta1) (h2 : 0 < eta2) :
+    hemLevyExponent a sigma lam p eta1 eta2 u
+      = Complex.I * u * a - sigma ^ 2 * (u : ℂ) ^ 2 / 2
+        + ∫ x : ℝ, (Complex.exp (Complex.I * u * x) - 1) * (hemDensity lam p eta1 eta2 x : ℂ) :=
+  hem_levy_exponent_is_LK a sigma lam p eta1 eta2 u h1 h2 (by simp [h1, h2])
+
+/-- κ(1) = λ ξ = ∫ (e^x − 1) ν(dx) when η₁ > 1 (the cached `_xi`, hem.py:37) -/
+theorem hem_xi_is_LK_integral (lam p eta1 eta2 : ℚ) (h1 : 1 < eta1) (h2 : 0 < eta2) :
+    ((lam * hemXi p eta1 eta2 : ℚ) : ℝ) = ∫ x : ℝ, (exp x - 1) * hemDensity lam p eta1 eta2 x := by
+  have h := hem_kappa_is_LK_integral lam p eta1 eta2 1 (by linarith) h2 ⟨by linarith, h1⟩
+  rw [hem_kappa_one] at h
+  simpa using h
+
+/-- **direct_route_martingale_HEM_integral**: drift of the direct simulation + σ²/2 + ∫ (e^x − 1) ν(dx) = r − d under the
+    exact jump law of the model's density -/
+theorem direct_route_martingale_HEM_integral (r d sigma lam p eta1 eta2 : ℚ) (h1 : 1 < eta1) (h2 : 0 < eta2) :
+    ((processDriftDirectHEM r d sigma lam p eta1 eta2 : ℚ) : ℝ) + (sigma : ℝ) * sigma / 2
+      + ∫ x : ℝ, (exp x - 1) * hemDensity lam p eta1 eta2 x = r - d := by
+  rw [← hem_xi_is_LK_integral lam p eta1 eta2 h1 h2]
+  unfold processDriftDirectHEM; push_cast; ring
+
+/-- **cf_route_martingale_HEM_integral**: with ω computed by the code from the rational function, the drift r − d + ω plus the
+    Lévy–Khintchine value at −i (a + σ²/2 + ∫ (e^x − 1) ν(dx)) is r − d -/
+theorem cf_route_martingale_HEM_integral (r d a sigma lam p eta1 eta2 : ℚ) (h1 : 1 < eta1) (h2 : 0 < eta2) :
+    ((expDrift r d (omega a sigma (hemKappa lam p eta1 eta2 1)) : ℚ) : ℝ) + (a + (sigma : ℝ) * sigma / 2
+      + ∫ x : ℝ, (exp x - 1) * hemDensity lam p eta1 eta2 x) = r - d := by
+  rw [← hem_xi_is_LK_integral lam p eta1 eta2 h1 h2, hem_kappa_one]
+  unfold expDrift omega psiMinusI; push_cast; ring
+
+/-- the pre-fix drift (finding #13) misses the forward rate by σ²/2 under the exact jump law -/
+theorem hem_prefix_gap_integral (r d sigma lam p eta1 eta2 : ℚ) (h1 : 1 < eta1) (h2 : 0 < eta2) :
+    ((processDriftDirectHEMPrefix r d lam p eta1 eta2 : ℚ) : ℝ) + (sigma : ℝ) * sigma / 2
+      + ∫ x : ℝ, (exp x - 1) * hemDensity lam p eta1 eta2 x = r - d + (sigma : ℝ) * sigma / 2 := by
+  rw [← hem_xi_is_LK_integral lam p eta1 eta2 h1 h2]
+  unfold processDriftDirectHEMPrefix; push_cast; ring
+
+/-! ### Merton -/
+
+theorem mertonKappaArg_cast (mu sigmaJ s : ℚ) :
+    ((mertonKappaArg mu sigmaJ s : ℚ) : ℝ) = mu * s + (sigmaJ : ℝ) ^ 2 * (s : ℝ) ^ 2 / 2 := by
+  unfold mertonKappaArg; push_cast; ring
+
+/-- **merton_kappa_is_LK_integral**: λ(e^{arg} − 1) with M's rational `mertonKappaArg` (merton.py:183-186) is the
+    moment-generating Lévy–Khintchine integral of the Gaussian jump density (merton.py:44-47), every real s -/
+theorem merton_kappa_is_LK_integral (lam mu sigmaJ s : ℚ) (hs : 0 < sigmaJ) :
+    (lam : ℝ) * (exp ((mertonKappaArg mu sigmaJ s : ℚ) : ℝ) - 1)
+      = ∫ x : ℝ, (exp (s * x) - 1) * mertonDensity lam mu sigmaJ x := by
+  rw [merton_LK_integral_real lam mu sigmaJ s (by exact_mod_cast hs), mertonKappaArg_cast]
+  rfl
+
+theorem merton_LK_integrable (lam mu sigmaJ : ℝ) (hs : 0 < sigmaJ) (z : ℂ) :
+    Integrable (fun x : ℝ => (Complex.exp (z * x) - 1) * (mertonDensity lam mu sigmaJ x : ℂ)) :=
+  integrable_mertonLK lam mu sigmaJ hs z
+
+/-- **complex argument** (real parameters): every complex z -/
+theorem merton_kappa_is_LK_integral_complex (lam mu sigmaJ : ℝ) (hs : 0 < sigmaJ) (z : ℂ) :
+    ∫ x : ℝ, (Complex.exp (z * x) - 1) * (mertonDensity lam mu sigmaJ x : ℂ)
+      = lam * (Complex.exp (mu * z + sigmaJ ^ 2 * z ^ 2 / 2) - 1) :=
+  merton_LK_integral_complex lam mu sigmaJ hs z
+
+/-- `LevyModel.levy_exponent(w)` of the Merton model as coded (levymodel.py:402-410 with merton.py:183-186, x = i w) -/
+noncomputable def mertonLevyExponent (a sigma lam mu sigmaJ : ℝ) (w : ℂ) : ℂ :=
+  Complex.I * w * a - (w * sigma) ^ 2 / 2
+    + lam * (Complex.exp (mu * (Complex.I * w) + (sigmaJ * (Complex.I * w)) ^ 2 / 2) - 1)
+
+/-- **merton_levy_exponent_is_LK**: the coded characteristic exponent is the Lévy–Khintchine formula of the declared triplet
+    (a, σ, ν, ZERO), every complex w -/
+theorem merton_levy_exponent_is_LK (a sigma lam mu sigmaJ : ℝ) (hs : 0 < sigmaJ) (w : ℂ) :
+    mertonLevyExponent a sigma lam mu sigmaJ w
+      = Complex.I * w * a - sigma ^ 2 * w ^ 2 / 2
+        + ∫ x : ℝ, (Complex.exp (Complex.I * w * x) - 1) * (mertonDensity lam mu sigmaJ x : ℂ) := by
+  rw [merton_kappa_is_LK_integral_complex lam mu sigmaJ hs (Complex.I * w)]
+  unfold mertonLevyExponent
+  ring_nf
+
+/-- merton.py:193-210 over ℝ (`e` of M's `processDriftDirectMerton` is exp(μ_J + σ_J²/2)) -/
+noncomputable def processDriftDirectMertonR (r d sigma lam mu sigmaJ : ℝ) : ℝ :=
+  r - d - sigma ^ 2 / 2 - lam * (exp (mu + sigmaJ ^ 2 / 2) - 1)
+
+theorem processDriftDirectMerton_cast (r d sigma lam e : ℚ) (mu sigmaJ : ℝ) (he : (e : ℝ) = exp (mu + sigmaJ ^ 2 / 2)) :
+    ((processDriftDirectMerton r d sigma lam e : ℚ) : ℝ) = processDriftDirectMertonR r d sigma lam mu sigmaJ := by
+  unfold processDriftDirectMerton processDriftDirectMertonR; push_cast; rw [he]; ring
+
+/-- **direct_route_martingale_Merton_integral**: drift of the direct simulation + σ²/2 + ∫ (e^x − 1) ν(dx) = r − d -/
+theorem direct_route_martingale_Merton_integral (r d sigma lam mu sigmaJ : ℝ) (hs : 0 < sigmaJ) :
+    processDriftDirectMertonR r d sigma lam mu sigmaJ + sigma ^ 2 / 2
+      + ∫ x : ℝ, (exp x - 1) * mertonDensity lam mu sigmaJ x = r - d := by
+  have h := merton_LK_integral_real lam mu sigmaJ 1 hs
+  simp only [one_mul] at h
+  rw [h]
+  unfold processDriftDirectMertonR mertonKappaR
+  simp only [mul_one, one_pow]
+  ring
+
+/-- the Rat model's drift, whenever its abstract `e` is the real e^{μ_J + σ_J²/2} -/
+theorem direct_route_martingale_Merton_integral_model (r d sigma lam e : ℚ) (mu sigmaJ : ℝ) (hs : 0 < sigmaJ)
+    (he : (e : ℝ) = exp (mu + sigmaJ ^ 2 / 2)) :
+    ((processDriftDirectMerton r d sigma lam e : ℚ) : ℝ) + (sigma : ℝ) ^ 2 / 2
+      + ∫ x : ℝ, (exp x - 1) * mertonDensity lam mu sigmaJ x = r - d := by
+  rw [processDriftDirectMerton_cast r d sigma lam e mu sigmaJ he]
+  exact direct_route_martingale_Merton_integral r d sigma lam mu sigmaJ hs
+
+/-! ### Black–Scholes: ν = 0 (blackscholes.py:38-63), `levy_exponent_pure_jump = 0` -/
+
+theorem bs_kappa_is_LK_integral (z : ℂ) : ∫ x : ℝ, (Complex.exp (z * x) - 1) * ((0 : ℝ) : ℂ) = 0 := by simp
+
+theorem direct_route_martingale_BS_integral (r d sigma : ℚ) :
+    ((processDriftDirectBS r d sigma : ℚ) : ℝ) + (sigma : ℝ) * sigma / 2 + ∫ x : ℝ, (exp x - 1) * (0 : ℝ) = r - d := by
+  unfold processDriftDirectBS; simp
+
+/-! ## the coded cumulants are the derivatives at 0 of the Lévy–Khintchine cumulant generating exponent -/
+
+/-- HEM, all orders: n-th derivative at 0 of s ↦ a s + σ²s²/2 + ∫ (e^{sx} − 1) ν(dx) -/
+theorem hem_cumulants_all_orders (a sigma lam p eta1 eta2 : ℝ) (h1 : 0 < eta1) (h2 : 0 < eta2) (n : ℕ) :
+    iteratedDeriv n (hemCgfLK a sigma lam p eta1 eta2) 0
+      = polyD a sigma n 0 + (lam * (Nat.factorial n) * (p * eta1 / eta1 ^ (n + 1) + (-1) ^ n * ((1 - p) * eta2) / eta2 ^ (n + 1))
+          - (if n = 0 then lam else 0)) := by
+  rw [hem_cgf_iteratedDeriv a sigma lam p eta1 eta2 h1 h2 n 0 (zero_mem_strip eta1 eta2 h1 h2)]
+  simp only [hemKappaD, sub_zero, add_zero]
+
+theorem hem_cumulant1_is_derivative (a sigma lam p eta1 eta2 t : ℚ) (h1 : 0 < eta1) (h2 : 0 < eta2) :
+    ((hemCumulant1 a lam p eta1 eta2 t : ℚ) : ℝ) = iteratedDeriv 1 (hemCgfLK a sigma lam p eta1 eta2) 0 * t := by
+  have e1 : (eta1 : ℝ) ≠ 0 := by exact_mod_cast h1.ne'
+  have e2 : (eta2 : ℝ) ≠ 0 := by exact_mod_cast h2.ne'
+  rw [hem_cumulants_all_orders a sigma lam p eta1 eta2 (by exact_mod_cast h1) (by exact_mod_cast h2)]
+  have hf : ((Nat.factorial 1 : ℕ) : ℝ) = 1 := by norm_num [Nat.factorial]
+  rw [hf, if_neg (by norm_num)]
+  simp only [hemCumulant1, polyD]; push_cast; field_simp; ring
+
+/-- the same with `deriv` spelled out -/
+theorem hem_cumulant1_is_deriv (a sigma lam p eta1 eta2 t : ℚ) (h1 : 0 < eta1) (h2 : 0 < eta2) :
+    ((hemCumulant1 a lam p eta1 eta2 t : ℚ) : ℝ) = deriv (hemCgfLK a sigma lam p eta1 eta2) 0 * t := by
+  rw [hem_cumulant1_is_derivative a sigma lam p eta1 eta2 t h1 h2, iteratedDeriv_one]
+
+theorem hem_cumulant2_is_derivative (a sigma lam p eta1 eta2 t : ℚ) (h1 : 0 < eta1) (h2 : 0 < eta2) :
+    ((hemCumulant2 sigma lam p eta1 eta2 t : ℚ) : ℝ) = iteratedDeriv 2 (hemCgfLK a sigma lam p eta1 eta2) 0 * t := by
+  have e1 : (eta1 : ℝ) ≠ 0 := by exact_mod_cast h1.ne'
+  have e2 : (eta2 : ℝ) ≠ 0 := by exact_mod_cast h2.ne'
+  rw [hem_cumulants_all_orders a sigma lam p eta1 eta2 (by exact_mod_cast h1) (by exact_mod_cast h2)]
+  have hf : ((Nat.factorial 2 : ℕ) : ℝ) = 2 := by norm_num [Nat.factorial]
+  rw [hf, if_neg (by norm_num)]
+  simp only [hemCumulant2, p2, polyD]; push_cast; field_simp; ring
+
+theorem hem_cumulant2_is_deriv (a sigma lam p eta1 eta2 t : ℚ) (h1 : 0 < eta1) (h2 : 0 < eta2) :
+    ((hemCumulant2 sigma lam p eta1 eta2 t : ℚ) : ℝ) = deriv (deriv (hemCgfLK a sigma lam p eta1 eta2)) 0 * t := by
+  rw [hem_cumulant2_is_derivative a sigma lam p eta1 eta2 t h1 h2, iteratedDeriv_succ, iteratedDeriv_one]
+
+theorem hem_cumulant4_is_derivative (a sigma lam p eta1 eta2 t : ℚ) (h1 : 0 < eta1) (h2 : 0 < eta2) :
+    ((hemCumulant4 lam p eta1 eta2 t : ℚ) : ℝ) = iteratedDeriv 4 (hemCgfLK a sigma lam p eta1 eta2) 0 * t := by
+  have e1 : (eta1 : ℝ) ≠ 0 := by exact_mod_cast h1.ne'
+  have e2 : (eta2 : ℝ) ≠ 0 := by exact_mod_cast h2.ne'
+  rw [hem_cumulants_all_orders a sigma lam p eta1 eta2 (by exact_mod_cast h1) (by exact_mod_cast h2)]
+  have hf : ((Nat.factorial 4 : ℕ) : ℝ) = 24 := by norm_num [Nat.factorial]
+  rw [hf, if_neg (by norm_num)]
+  simp only [hemCumulant4, p4, polyD]; push_cast; field_simp; ring
+
+theorem hem_cumulant6_is_derivative (a sigma lam p eta1 eta2 t : ℚ) (h1 : 0 < eta1) (h2 : 0 < eta2) :
+    ((hemCumulant6 lam p eta1 eta2 t : ℚ) : ℝ) = iteratedDeriv 6 (hemCgfLK a sigma lam p eta1 eta2) 0 * t := by
+  have e1 : (eta1 : ℝ) ≠ 0 := by exact_mod_cast h1.ne'
+  have e2 : (eta2 : ℝ) ≠ 0 := by exact_mod_cast h2.ne'
+  rw [hem_cumulants_all_orders a sigma lam p eta1 eta2 (by exact_mod_cast h1) (by exact_mod_cast h2)]
+  have hf : ((Nat.factorial 6 : ℕ) : ℝ) = 720 := by norm_num [Nat.factorial]
+  rw [hf, if_neg (by norm_num)]
+  simp only [hemCumulant6, p6, polyD]; push_cast; field_simp; ring
+
+/-- the coded cumulants 1, 2 are drift + mean and σ² + second moment of the jump density itself (C09's integrals) -/
+theorem hem_cumulant12_are_moments (a sigma lam p eta1 eta2 t : ℚ) (h1 : 0 < eta1) (h2 : 0 < eta2) :
+    ((hemCumulant1 a lam p eta1 eta2 t : ℚ) : ℝ) = (a + ∫ x : ℝ, x ^ 1 * hemDensity lam p eta1 eta2 x) * t ∧
+    ((hemCumulant2 sigma lam p eta1 eta2 t : ℚ) : ℝ) = ((sigma : ℝ) ^ 2 + ∫ x : ℝ, x ^ 2 * hemDensity lam p eta1 eta2 x) * t := by
+  have h1' : (0 : ℝ) < eta1 := by exact_mod_cast h1
+  have h2' : (0 : ℝ) < eta2 := by exact_mod_cast h2
+  have hz := zero_mem_strip (eta1 : ℝ) eta2 h1' h2'
+  constructor
+  · rw [hem_moment_eq_deriv 1 le_rfl (by norm_num) lam p eta1 eta2 h1' h2', hem_cumulant1_is_derivative a sigma lam p eta1 eta2 t h1 h2,
+      hem_cgf_iteratedDeriv a sigma lam p eta1 eta2 h1' h2' 1 0 hz]
+    simp only [polyD]; ring
+  · rw [hem_moment_eq_deriv 2 (by norm_num) le_rfl lam p eta1 eta2 h1' h2', hem_cumulant2_is_derivative a sigma lam p eta1 eta2 t h1 h2,
+      hem_cgf_iteratedDeriv a sigma lam p eta1 eta2 h1' h2' 2 0 hz]
+    simp only [polyD]
+
+/-- Merton, all orders -/
+theorem merton_cumulants_all_orders (a sigma lam mu sigmaJ : ℝ) (hs : 0 < sigmaJ) (n : ℕ) (hn : n ≠ 0) :
+    iteratedDeriv n (mertonCgfLK a sigma lam mu sigmaJ) 0
+      = polyD a sigma n 0 + lam * (mertonP mu (sigmaJ ^ 2) n).eval 0 := by
+  rw [merton_cgf_iteratedDeriv a sigma lam mu sigmaJ hs n 0, mertonKappaD_at_zero lam mu sigmaJ n hn]
+
+theorem merton_cumulant1_is_derivative (a sigma lam mu sigmaJ t : ℚ) (hs : 0 < sigmaJ) :
+    ((mertonCumulant1 a lam mu t : ℚ) : ℝ) = iteratedDeriv 1 (mertonCgfLK a sigma lam mu sigmaJ) 0 * t := by
+  rw [merton_cumulants_all_orders a sigma lam mu sigmaJ (by exact_mod_cast hs) 1 (by norm_num), mertonP_one]
+  simp only [mertonCumulant1, polyD]; push_cast; ring
+
+theorem merton_cumulant2_is_derivative (a sigma lam mu sigmaJ t : ℚ) (hs : 0 < sigmaJ) :
+    ((mertonCumulant2 sigma lam mu sigmaJ t : ℚ) : ℝ) = iteratedDeriv 2 (mertonCgfLK a sigma lam mu sigmaJ) 0 * t := by
+  rw [merton_cumulants_all_orders a sigma lam mu sigmaJ (by exact_mod_cast hs) 2 (by norm_num), mertonP_two]
+  simp only [mertonCumulant2, p2, polyD]; push_cast; ring
+
+theorem merton_cumulant4_is_derivative (a sigma lam mu sigmaJ t : ℚ) (hs : 0 < sigmaJ) :
+    ((mertonCumulant4 lam mu sigmaJ t : ℚ) : ℝ) = iteratedDeriv 4 (mertonCgfLK a sigma lam mu sigmaJ) 0 * t := by
+  rw [merton_cumulants_all_orders a sigma lam mu sigmaJ (by exact_mod_cast hs) 4 (by norm_num), mertonP_four]
+  simp only [mertonCumulant4, p2, p4, polyD]; push_cast; ring
+
+theorem merton_cumulant6_is_derivative (a sigma lam mu sigmaJ t : ℚ) (hs : 0 < sigmaJ) :
+    ((mertonCumulant6 lam mu sigmaJ t : ℚ) : ℝ) = iteratedDeriv 6 (mertonCgfLK a sigma lam mu sigmaJ) 0 * t := by
+  rw [merton_cumulants_all_orders a sigma lam mu sigmaJ (by exact_mod_cast hs) 6 (by norm_num), mertonP_six]
+  simp only [mertonCumulant6, p2, p4, p6, polyD]; push_cast; ring
+
+/-- Black–Scholes (ν = 0): cumulants 1, 2 are a, σ²; every higher one is 0 (blackscholes.py:66-88) -/
+theorem bs_cumulants_are_derivatives (a sigma t : ℚ) (n : ℕ) :
+    iteratedDeriv n (fun s : ℝ => (a : ℝ) * s + (sigma : ℝ) ^ 2 * s ^ 2 / 2 + ∫ x : ℝ, (exp (s * x) - 1) * (0 : ℝ)) 0 * (t : ℝ)
+      = match n with
+        | 0 => 0
+        | 1 => ((bsCumulant1 a t : ℚ) : ℝ)
+        | 2 => ((bsCumulant2 sigma t : ℚ) : ℝ)
+        | _ => 0 := by
+  have h := iteratedDeriv_of_chain isOpen_univ (polyD a sigma) (fun k v _ => hasDerivAt_polyD a sigma k v)
+    (fun s : ℝ => (a : ℝ) * s + (sigma : ℝ) ^ 2 * s ^ 2 / 2 + ∫ x : ℝ, (exp (s * x) - 1) * (0 : ℝ))
+    (fun v _ => by simp [polyD]) n 0 (Set.mem_univ _)
+  rw [h]
+  match n with
+  | 0 => simp [polyD]
+  | 1 => simp [polyD, bsCumulant1]
+  | 2 => simp only [polyD, bsCumulant2]; push_cast; ring
+  | (k + 3) => simp [polyD]
+
+/-- **hem_cgf_model_is_LK**: M's rational `hemCgf` (= the code's `levy_exponent(-i s)`, Drivers/C10 `hemcgf`) is the
+    Lévy–Khintchine cumulant generating exponent whose derivatives at 0 are the coded cumulants -/
+theorem hem_cgf_model_is_LK (a sigma lam p eta1 eta2 s : ℚ) (h1 : 0 < eta1) (h2 : 0 < eta2) (hs : -eta2 < s ∧ s < eta1) :
+    ((hemCgf a sigma lam p eta1 eta2 s : ℚ) : ℝ) = hemCgfLK a sigma lam p eta1 eta2 s := by
+  unfold hemCgfLK
+  rw [← hem_kappa_is_LK_integral lam p eta1 eta2 s h1 h2 hs]
+  unfold hemCgf cgfOf; push_cast; ring
+
+/-- Merton: `cgfOf a σ s 0` + λ(e^{arg} − 1) with M's rational `arg` is the Lévy–Khintchine cumulant generating exponent -/
+theorem merton_cgf_model_is_LK (a sigma lam mu sigmaJ s : ℚ) (hs : 0 < sigmaJ) :
+    ((cgfOf a sigma s 0 : ℚ) : ℝ) + (lam : ℝ) * (exp ((mertonKappaArg mu sigmaJ s : ℚ) : ℝ) - 1)
+      = mertonCgfLK a sigma lam mu sigmaJ s := by
+  unfold mertonCgfLK
+  rw [← merton_kappa_is_LK_integral lam mu sigmaJ s hs]
+  unfold cgfOf; push_cast; ring
+
+/-! ### what the driver prints for a complex argument is the Lévy–Khintchine formula -/
+
+/-- **hem_levy_exponent_model_is_LK**: M's exact rational real / imaginary parts of `levy_exponent(u + i v)` (the numbers
+    Drivers/C10 `levyexp hem` prints and harness/props/c10.py compares with the code) are the Lévy–Khintchine formula of the
+    declared triplet (a, σ, ν, ZERO) with the model's own density, for all rational parameters and −η₂ < −v < η₁ -/
+theorem hem_levy_exponent_model_is_LK (a sigma lam p eta1 eta2 u v : ℚ) (h1 : 0 < eta1) (h2 : 0 < eta2)
+    (hv : -eta2 < -v ∧ -v < eta1) :
+    (((levyExpRe a sigma u v (hemKappaRe lam p eta1 eta2 (-v) u) : ℚ) : ℝ) : ℂ)
+      + ((levyExpIm a sigma u v (hemKappaIm lam p eta1 eta2 (-v) u) : ℚ) : ℝ) * Complex.I
+    = Complex.I * ((u : ℝ) + (v : ℝ) * Complex.I) * ((a : ℝ) : ℂ)
+        - ((sigma : ℝ) : ℂ) ^ 2 * ((u : ℝ) + (v : ℝ) * Complex.I) ^ 2 / 2
+        + ∫ x : ℝ, (Complex.exp (Complex.I * ((u : ℝ) + (v : ℝ) * Complex.I) * x) - 1) * (hemDensity lam p eta1 eta2 x : ℂ) := by
+  have h1' : (0 : ℝ) < eta1 := by exact_mod_cast h1
+  have h2' : (0 : ℝ) < eta2 := by exact_mod_cast h2
+  have hv1 : -(eta2 : ℝ) < -(v : ℝ) := by exact_mod_cast hv.1
+  have hv2 : -(v : ℝ) < eta1 := by exact_mod_cast hv.2
+  have n1 : ((eta1 : ℝ) - ((-v : ℚ) : ℝ)) ^ 2 + (u : ℝ) ^ 2 ≠ 0 := by
+    have : 0 < (eta1 : ℝ) - ((-v : ℚ) : ℝ) := by push_cast; linarith
+    positivity
+  have n2 : ((eta2 : ℝ) + ((-v : ℚ) : ℝ)) ^ 2 + (u : ℝ) ^ 2 ≠ 0 := by
+    have : 0 < (eta2 : ℝ) + ((-v : ℚ) : ℝ) := by push_cast; linarith
+    positivity
+  have hk := hemKappaC_re_im lam p eta1 eta2 (-v) u n1 n2
+  rw [← I_mul_w u v] at hk
+  rw [← levyExp_re_im a sigma u v _ _ _ hk]
+  have hw : -(eta2 : ℝ) < -((u : ℝ) + (v : ℝ) * Complex.I).im ∧ -((u : ℝ) + (v : ℝ) * Complex.I).im < eta1 := by
+    simp only [Complex.add_im, Complex.ofReal_im, Complex.mul_im, Complex.ofReal_re, Complex.I_im, Complex.I_re,
+      mul_one, mul_zero, add_zero, zero_add]
+    exact ⟨hv1, hv2⟩
+  have h := hem_levy_exponent_is_LK a sigma lam p eta1 eta2 ((u : ℝ) + (v : ℝ) * Complex.I) h1' h2' hw
+  unfold hemLevyExponent at h
+  rw [h]
+
+/-- **merton_levy_exponent_model_is_LK**: with M's rational `mertonArgRe/Im` (the argument of the single `exp`), the coded
+    `levy_exponent(u + i v)` of Merton is the Lévy–Khintchine formula of (a, σ, ν, ZERO), every rational u, v -/
+theorem merton_levy_exponent_model_is_LK (a sigma lam mu sigmaJ u v : ℚ) (hs : 0 < sigmaJ) :
+    Complex.I * ((u : ℝ) + (v : ℝ) * Complex.I) * ((a : ℝ) : ℂ)
+        - (((u : ℝ) + (v : ℝ) * Complex.I) * ((sigma : ℝ) : ℂ)) ^ 2 / 2
+        + ((lam : ℝ) : ℂ) * (Complex.exp (((mertonArgRe mu sigmaJ (-v) u : ℚ) : ℝ) + ((mertonArgIm mu sigmaJ (-v) u : ℚ) : ℝ) * Complex.I) - 1)
+    = Complex.I * ((u : ℝ) + (v : ℝ) * Complex.I) * ((a : ℝ) : ℂ)
+        - ((sigma : ℝ) : ℂ) ^ 2 * ((u : ℝ) + (v : ℝ) * Complex.I) ^ 2 / 2
+        + ∫ x : ℝ, (Complex.exp (Complex.I * ((u : ℝ) + (v : ℝ) * Complex.I) * x) - 1) * (mertonDensity lam mu sigmaJ x : ℂ) := by
+  have hs' : (0 : ℝ) < sigmaJ := by exact_mod_cast hs
+  rw [← mertonArg_re_im mu sigmaJ (-v) u, ← I_mul_w u v,
+    merton_kappa_is_LK_integral_complex lam mu sigmaJ hs' (Complex.I * ((u : ℝ) + (v : ℝ) * Complex.I))]
+  ring
+
+/-! ### non-vacuity (the hypotheses are satisfiable: default HEM / Merton parameters) -/
+
+example : ((hemKappa 3 (3/5) 20 25 1 : ℚ) : ℝ)
+    = ∫ x : ℝ, (exp (((1 : ℚ) : ℝ) * x) - 1) * hemDensity ((3 : ℚ) : ℝ) ((3/5 : ℚ) : ℝ) ((20 : ℚ) : ℝ) ((25 : ℚ) : ℝ) x :=
+  hem_kappa_is_LK_integral 3 (3/5) 20 25 1 (by norm_num) (by norm_num) (by norm_num)
+
+example : hemKappa 3 (3/5) 20 25 1 = 12 / 247 := by decide +kernel
+
+example : ((processDriftDirectHEM (1/50) 0 (1/20) 3 (3/5) 20 25 : ℚ) : ℝ) + (((1/20 : ℚ)) : ℝ) * ((1/20 : ℚ) : ℝ) / 2
+    + ∫ x : ℝ, (exp x - 1) * hemDensity ((3 : ℚ) : ℝ) ((3/5 : ℚ) : ℝ) ((20 : ℚ) : ℝ) ((25 : ℚ) : ℝ) x
+      = ((1/50 : ℚ) : ℝ) - ((0 : ℚ) : ℝ) :=
+  direct_route_martingale_HEM_integral (1/50) 0 (1/20) 3 (3/5) 20 25 (by norm_num) (by norm_num)
+
+example : (1 : ℝ) * (exp ((mertonKappaArg (-1/2) 1 1 : ℚ) : ℝ) - 1) = 0 := by
+  have : mertonKappaArg (-1/2) 1 1 = 0 := by decide +kernel
+  rw [this]; simp
+
+/-- the Rat model's Merton drift with e = 1 is a genuine instance (μ_J = −1/2, σ_J = 1) -/
+example : ((processDriftDirectMerton (1/50) 0 (1/5) 2 1 : ℚ) : ℝ) + (((1/5 : ℚ)) : ℝ) ^ 2 / 2
+    + ∫ x : ℝ, (exp x - 1) * mertonDensity ((2 : ℚ) : ℝ) (-1/2) 1 x = ((1/50 : ℚ) : ℝ) - ((0 : ℚ) : ℝ) :=
+  direct_route_martingale_Merton_integral_model (1/50) 0 (1/5) 2 1 (-1/2) 1 (by norm_num) (by norm_num)
 
 end Rpylib.Triplet
